@@ -796,6 +796,17 @@ e/\n\n
 .
 ''')
 
+E('ln_tc_var', 'lineno trail e1', r'''
+%option yylineno
+%%
+f/\n+
+g/\n[ ]*h
+i+/\n
+j\n*/k
+\n
+.
+''')
+
 E('ln_bar', 'lineno bar e1', r'''
 %option yylineno
 %%
